@@ -104,6 +104,7 @@ def subprocess_timeout():
 def run(ctx, pid, args):
     P = load_prop(pid)
     t0 = time.time()
+    phases = {}
     obligations = []           # (name, ok, detail)
     tie_notes = []
 
@@ -129,6 +130,7 @@ def run(ctx, pid, args):
             if not okp:
                 pin_fail.append((pt, errsp[:3]))
         audit = vlib.run_audit(pid, getattr(P, 'CLUSTER', 'Z')) if ok_props else {'theorems': vlib.theorem_names(pid), 'axioms': {}, 'bad': [], 'forbidden': [], 'ok': False, 'log': 'Props did not build'}
+    phases['translate+build+audit'] = round(time.time() - t0, 1)
     thms = audit['theorems']
     for n in thms:
         ok_n = ok_props and n in audit['axioms'] and not any(b[0] == n for b in audit['bad'])
@@ -165,16 +167,20 @@ def run(ctx, pid, args):
         return 2
     corpus = P.corpus(ctx) if hasattr(P, 'corpus') else []
     cases = corpus + list(P.cases(ctx))
+    t1 = time.time()
     recs = evaluate(ctx, P, cases, which=which)
     model_dis, spec_vio, discards, harness_err = judge(P, recs, use_model=ok_drv)
+    phases['cases: implementation + driver + comparison'] = round(time.time() - t1, 1)
     if harness_err:
         r = harness_err[0]
         print(f'CHECK-ERROR property={pid}: harness/driver error on a case: {json.dumps(r, default=str)[:1500]}')
         return 2
     extra = []
+    t2 = time.time()
     if hasattr(P, 'extra_checks'):      # list of dicts {ok, name, kind?, case, detail}
         with contextlib.redirect_stdout(io.StringIO()), contextlib.redirect_stderr(io.StringIO()):
             extra = P.extra_checks(ctx)
+    phases['extra checks'] = round(time.time() - t2, 1)
     extra_vio = [e for e in extra if not e['ok']]
 
     # ---- decide ---------------------------------------------------------------------------------------
@@ -288,6 +294,7 @@ def run(ctx, pid, args):
         'distribution': P.distribution(recs) if hasattr(P, 'distribution') else {},
         'samples': samples,
         'build_seconds': round(t_build, 1),
+        'phase_seconds': phases,
         'axioms': {n: audit['axioms'].get(n) for n in thms},
         'known_findings_reported': sorted(seen_kinds),
     }
